@@ -155,6 +155,15 @@ func genFlag(r *Rng) uint32 {
 	return 0
 }
 
+func addBucket(l []int, b int) []int {
+	for _, x := range l {
+		if x == b {
+			return l
+		}
+	}
+	return append(l, b)
+}
+
 type seqWeights struct {
 	set, del, incr, get, mget, meta, meta2, flush, tick, dump, advance, restart, gc, listing, merge int
 }
@@ -365,6 +374,7 @@ func genSeqPlan(prop string, seed uint64, tier string) *Plan {
 	}
 	weights := []int{w.set, w.del, w.incr, w.get, w.mget, w.meta, w.meta2, w.flush, w.tick, w.dump, w.advance, w.restart, w.gc, w.listing, w.merge}
 	kinds := []string{"set", "del", "incr", "get", "mget", "meta", "meta2", "flush", "tick", "dump", "advance", "restart", "gc", "list", "merge"}
+	curRoute := append([]int(nil), c.Served...)
 	idBase := 0
 	if bulk > 0 {
 		for k := 0; k < bulk; k++ {
@@ -493,6 +503,33 @@ func genSeqPlan(prop string, seed uint64, tier string) *Plan {
 				op.Del = append(op.Del, "some")
 			}
 			op.DelSeed = uint32(r.U64())
+			if prop == "C15" && c.NumBucket > 1 && r.Bool(2, 3) {
+				// route change: drop a served bucket, add the bucket of one of the keys, or both
+				cur := append([]int(nil), curRoute...)
+				switch r.Intn(3) {
+				case 0:
+					if len(cur) > 0 {
+						i := r.Intn(len(cur))
+						cur = append(cur[:i], cur[i+1:]...)
+					}
+				case 1:
+					cur = addBucket(cur, bucketOf(c, p.Keys[r.Intn(len(p.Keys))]))
+				case 2:
+					if len(cur) > 0 {
+						i := r.Intn(len(cur))
+						cur = append(cur[:i], cur[i+1:]...)
+					}
+					cur = addBucket(cur, bucketOf(c, p.Keys[r.Intn(len(p.Keys))]))
+				}
+				if len(cur) > 4 {
+					cur = cur[:4]
+				}
+				op.Route = cur
+				if op.Route == nil {
+					op.Route = []int{}
+				}
+				curRoute = cur
+			}
 			if prop == "C08" && r.Bool(1, 2) {
 				op.Kill = true
 				if r.Bool(1, 2) {
